@@ -70,7 +70,13 @@ CLAIMED = {
          "Bezier interpolation, reversing a path (segments reversed, control points reversed) negates AreaPen's signed area and is an "
          "involution, the quadratic/line/cubic area formulas are mutually consistent (degree elevation), translation changes each segment's "
          "area by a telescoping boundary term. Transform, AreaPen and the whole of reversedContour are modelled; reversedContour is tied to the "
-         "code by exact call-list correspondence. On the implementation: every adapter (record/replay, segment<->point, transform, reverse "
+         "code by exact call-list correspondence. The two protocol adapters are modelled call by call (SegmentToPointPen incl. its closing-point "
+         "merge, the discarded unfinished contour and its error cases; PointToSegmentPen incl. rotation to the first on-curve point, the "
+         "segment cutter, the implied closing line rule and its error cases): segment -> point -> segment returns every open contour "
+         "unchanged, every closed contour in a canonical form proved to be the same contour (same start, same segments once the closing line "
+         "is written out), and a quadratic contour without on-curve points unchanged; the one- and two-point degenerate cases that come back "
+         "as an open single point are stated, not hidden. Exact correspondence of both adapters on well-formed and malformed inputs. On the "
+         "implementation: every adapter (record/replay, segment<->point, transform, reverse "
          "(both protocols), bounds, TTGlyphPen/TTGlyphPointPen with dropImpliedOnCurves, T2CharStringPen, super-bezier and quadratic "
          "decomposition) is compared through an independent canonical geometry (testing).",
          "Rocq proof over Q of transform/area/reversal algebra + exact correspondence of reversedContour + canonical-geometry sweeps"),
